@@ -90,6 +90,29 @@ def Cost.least : Cost → Nat → Nat
   | .curve w, n => costCurveLeast w n
   | .xcurve w, n => costCurveLeast w n
 
+/-- guard of `job_cost_iter` for the curve models: `cost(i+1) - cost(i)` must not
+underflow for the first `n` items -/
+def costItemsGuard (f : Nat → Nat) (n : Nat) : Bool :=
+  (List.range n).all fun i => decide (f i ≤ f (i + 1))
+
+/-- guard of `JobCostModel::job_cost_iter().take(n)` -/
+def Cost.itemsGuard : Cost → Nat → Bool
+  | .scalar _, _ => true
+  | .multiframe _, _ => true
+  | .curve w, n => costItemsGuard (costCurveOf w) n
+  | .xcurve w, n => costItemsGuard (xcostOf w) n
+
+/-- guard of `wcet::Curve::least_wcet(n)`: `w[0]` exists and the neighbour differences
+inspected do not underflow -/
+def costLeastGuard (w : List Nat) (n : Nat) : Bool :=
+  n = 0 || (w ≠ [] && (List.range (min w.length n - 1)).all fun i => decide (w.getD i 0 ≤ w.getD (i + 1) 0))
+
+def Cost.leastGuard : Cost → Nat → Bool
+  | .scalar _, _ => true
+  | .multiframe _, _ => true
+  | .curve w, n => costLeastGuard w n
+  | .xcurve w, n => costLeastGuard w n
+
 /-- cumulative-cost vector: non-empty, non-decreasing, sub-additive
 (`w[i+j+1] ≤ w[i] + w[j]`: the cost of `i+j+2` jobs is at most that of `i+1` plus `j+1`) -/
 def costCurveWF (w : List Nat) : Prop :=
